@@ -59,7 +59,7 @@ ASSUMPTIONS = [
     'non-constant rates, non-unit attitudes, representation=rotmat/angles and the MARG/accelerometer-present branches '
     'are out of scope',
 ]
-REQUIRED_CLASSES = ['dr:dt-types', 'dr:batch-no-q0', 'closed:chain', 'closed:batch(Dt)', 'closed:batch(frequency)', 'closed:total-angle>2pi',
+REQUIRED_CLASSES = ['representations', 'dr:configured-step', 'dr:dt-types', 'dr:batch-no-q0', 'closed:chain', 'closed:batch(Dt)', 'closed:batch(frequency)', 'closed:total-angle>2pi',
                     'closed:q0-negative-scalar', 'closed:theta>=0.1', 'closed:theta<=1e-4',
                     'series:order0', 'series:order1', 'series:order2', 'series:order3', 'series:order4', 'series:order5',
                     'series:order6', 'series:batch', 'dr:Madgwick', 'dr:Mahony', 'dr:AQUA', 'dr:EKF.f', 'dr:ROLEQ',
@@ -525,6 +525,106 @@ def job_integration(ctx, j, sgn):
                 'reference_last_row': ref[-1].tolist()})
 
 
+# ---------------------------------------------------------------------------------------------- (vi) representations, configured step
+def job_representations(ctx):
+    """(1) AngularRate's three output representations describe the same attitudes, for every method: .R rows = matrices of the .Q rows,
+    .W rows = angles of the .Q rows.  (2) The step a filter dead-reckons with when `dt` is NOT given per call is the one it was
+    configured with, whether as `Dt=` or as `frequency=` (Madgwick, Mahony, AQUA, ROLEQ)."""
+    AngularRate, Madgwick, Mahony, AQUA, EKF, ROLEQ, QuaternionArray = _lib()
+    N = 8
+    rates = [np.array([0.3, -0.2, 0.5]), np.array([1.5, 0.0, 0.0]), np.array([0.0, -2.0, 0.0]), np.array([0.0, 0.0, 0.7]), np.array([-0.4, 0.9, 0.2])]
+    for wi, w in enumerate(rates):
+        G = np.tile(w, (N, 1))
+        for method, kw in (('closed', {}), ('series', {'order': 2}), ('integration', {})):
+            for dt in (0.01, 0.05):
+                key = f'method={method} w#{wi} dt={dt}'
+                try:
+                    Q = _arr(AngularRate(gyr=G.copy(), method=method, Dt=dt, **kw).Q)
+                    Rm = _arr(AngularRate(gyr=G.copy(), method=method, Dt=dt, representation='rotmat', **kw).R)
+                    Wm = _arr(AngularRate(gyr=G.copy(), method=method, Dt=dt, representation='angles', **kw).W)
+                except Exception as ex:
+                    ctx.fail('AngularRate: a representation raises', key, f'{type(ex).__name__}: {ex}'[:120], 'rows')
+                    continue
+                okq = Q.shape == (N, 4) and bool(np.all(np.isfinite(Q)))
+                ctx.evals += 2
+                if okq and Rm.shape == (N, 3, 3):
+                    d = max(float(np.abs(Rm[i] - rq.R(rq.qunit(Q[i]))).max()) for i in range(N))
+                    if not d <= 1e-12:
+                        ctx.fail("AngularRate(representation='rotmat').R rows = the matrices of the quaternion rows", key, d, 0.0, 1e-12)
+                else:
+                    ctx.fail("AngularRate(representation='rotmat').R has N 3x3 rows", key, list(Rm.shape), [N, 3, 3])
+                if okq and Wm.shape == (N, 3):
+                    d = max(rq.qangle(rq.rpy2q(*Wm[i]), rq.qunit(Q[i])) for i in range(N))
+                    if not d <= 1e-9:
+                        ctx.fail("AngularRate(representation='angles').W rows = the roll-pitch-yaw angles of the quaternion rows", key, d, 0.0, 1e-9)
+                else:
+                    ctx.fail("AngularRate(representation='angles').W has N angle triples", key, list(Wm.shape), [N, 3])
+                ctx.seen(('repr', method, wi, dt))
+        ctx.cls('representations')
+    # (2)
+    Z = np.zeros(3)
+    conj = lambda q: q * np.array([1.0, -1.0, -1.0, -1.0])
+    q0 = rq.qunit(np.array([0.7, -0.2, 0.5, 0.4]))
+    mref = np.array([20.0, 3.0, 41.0])
+    makers = [('Madgwick', False, lambda **k_: Madgwick(**k_), lambda f, q, w: f.updateIMU(q, w, Z.copy())),
+              ('Mahony', False, lambda **k_: Mahony(**k_), lambda f, q, w: f.updateIMU(q, w, Z.copy())),
+              ('AQUA', True, lambda **k_: AQUA(**k_), lambda f, q, w: f.updateIMU(q, w, Z.copy())),
+              ('ROLEQ', False, lambda **k_: ROLEQ(**k_), lambda f, q, w: f.update(q, w, Z.copy(), mref.copy()))]
+    for w in (np.array([0.3, -0.2, 0.5]), np.array([3.0, 1.0, -2.0])):
+        for dt in (0.002, 0.02, 0.05):
+            for fname, is_conj, mk, step in makers:
+                for how, kw in (('Dt', {'Dt': dt}), ('frequency', {'frequency': 1.0 / dt}), ('frequency and Dt', {'frequency': 1.0 / dt, 'Dt': dt})):
+                    key = f'{fname}({how}) w={w.tolist()} dt={dt}'
+                    ctx.evals += 1
+                    try:
+                        f = mk(**kw)
+                        qq = conj(q0) if is_conj else q0.copy()
+                        got = _arr(step(f, qq.copy(), w.copy()))
+                        if is_conj and got.shape == (4,):
+                            got = conj(got)
+                        dd = ri.sdist(got, ri.first_order(q0, w, dt)) if got.shape == (4,) else np.inf
+                    except Exception as ex:
+                        ctx.fail(f'{fname}: dead-reckoning step with the configured step size raises', key, f'{type(ex).__name__}: {ex}'[:120], 'a quaternion')
+                        continue
+                    if not dd <= TOL_DR:
+                        ctx.fail(f'{fname}: without a per-call dt the dead-reckoning step uses the step configured as Dt= / frequency=', key, dd, 0.0, TOL_DR)
+            ctx.cls('dr:configured-step')
+    # (3) the user loop: whatever the update returns is fed back as it is, every returned attitude is KEPT; judged after the loop
+    from ahrs import Quaternion
+    for w in (np.array([0.3, -0.2, 0.5]), np.array([3.0, 1.0, -2.0])):
+        dt = 0.02
+        for fname, is_conj, mk, step in makers[:3]:
+            for start in ('ndarray', 'Quaternion object'):
+                key = f'{fname} loop feeding back the returned object, start as {start}, w={w.tolist()}'
+                ctx.evals += 1
+                try:
+                    f = mk(Dt=dt)
+                    s0 = conj(q0) if is_conj else q0.copy()
+                    q = Quaternion(s0.copy()) if start == 'Quaternion object' else s0.copy()
+                    first_obj = q
+                    kept = [q]
+                    for _ in range(12):
+                        q = step(f, q, w.copy())
+                        kept.append(q)
+                except TypeError:
+                    ctx.outcome(('object-refused', fname, start)); continue
+                except Exception as ex:
+                    ctx.fail(f'{fname}: loop raises', key, f'{type(ex).__name__}: {ex}'[:120], 'attitudes'); continue
+                ok = np.array_equal(np.asarray(first_obj, float), s0)
+                worst = 0.0
+                for i in range(len(kept) - 1):
+                    a_, b_ = _arr(kept[i]), _arr(kept[i + 1])
+                    if is_conj:
+                        a_, b_ = conj(a_), conj(b_)
+                    worst = max(worst, ri.sdist(b_, ri.first_order(a_, w, dt)))
+                if not (ok and worst <= TOL_DR):
+                    ctx.fail(f'{fname}: every kept attitude of the loop q = update(q, ...) is the first-order step of the one kept before it (and the start is left as it was)', key,
+                             {'start_unchanged': bool(ok), 'worst_step_defect': worst}, 0.0, TOL_DR)
+            ctx.cls('dr:kept-results')
+    ctx.sample({'representations': ['quaternion', 'rotmat', 'angles'], 'configured_step': ['Dt', 'frequency']})
+
+
+
 def run(ctx):
     nq, na = len(_q0s(ctx)), len(_axes(ctx))
     jobs = []
@@ -539,6 +639,7 @@ def run(ctx):
     for j in range(3):
         for s in (1, -1):
             jobs.append(('job_integration', (j, s)))
+    jobs.append(('job_representations', ()))
     core.run_jobs(ctx, __name__, jobs)
     ctx.transitions = ctx.traces
     ctx.max_depth = _nmax(ctx)
